@@ -108,7 +108,7 @@ class EngineBase(metaclass=ABCMeta):
             status = "Crossed right interface!"
             success = True
             stop = True
-        if path.length == path.maxlen:
+        if path.length == path.maxlen and not success:
             status = "Max. path length exceeded!"
             success = False
             stop = True
